@@ -254,6 +254,9 @@ func RunStore(c *Ctx) {
 				s.st = store.New(s.kv)
 				s.call("save", 1, "A", "", "", -1)
 				s.call("save", 2, "C", "", "", -1)
+				if k%2 == 1 { // the blocks are looked up (by height, by hash) before one of them is replaced
+					s.readAll()
+				}
 				s.call("save", 1, second, "", "", k)
 				if reopenAfter {
 					s.reopen()
